@@ -4,6 +4,7 @@ import (
 	"fmt"
 	"strings"
 	"testing"
+	"time"
 
 	"github.com/datastax/cql-proxy/proxy"
 	"github.com/datastax/go-cassandra-native-protocol/message"
@@ -107,6 +108,9 @@ type c05Case struct {
 	Down            []int     `json:"down,omitempty"`
 	IdempotentGraph bool      `json:"idempotent_graph,omitempty"`
 	Reqs            []reqSpec `json:"requests"`
+	// Lose[h] = k >= 0: before the requests start, host h loses pooled connection k of its two and the
+	// replacement hangs in its handshake, so the host keeps exactly one usable connection (it is not "down")
+	Lose []int `json:"lose_conn,omitempty"`
 }
 
 type expAttempt struct {
@@ -300,6 +304,44 @@ func c05Check(c c05Case) *evid.Fail {
 	for _, d := range c.Down {
 		down[d] = true
 	}
+	if c.Conns == 2 && len(c.Lose) > 0 {
+		// the client's backend session must exist before one of its connections can be lost
+		ws := r.nextStream()
+		if err := r.c.SendMsg(4, ws, &message.Query{Query: "SELECT * FROM ks1.t WHERE tokc = '" + nextToken() + "'", Options: &message.QueryOptions{Consistency: primitive.ConsistencyLevelOne}}, false); err != nil {
+			return evid.Failf("harness-send", "send: %v", err)
+		}
+		if r.c.WaitStream(ws, 0, 1, posWait) == nil {
+			return evid.Failf("no-reply", "no reply to the warm-up request")
+		}
+		e.Cluster.SetHoldStartup(true)
+		defer e.Cluster.ReleaseStartups()
+		lost := 0
+		for h, k := range c.Lose {
+			if k < 0 || h >= c.Hosts || down[h] {
+				continue
+			}
+			var pooled []*fakecass.Conn
+			for _, cn := range e.Cluster.Host(h).Conns() {
+				if !cn.IsRegistered() {
+					pooled = append(pooled, cn)
+				}
+			}
+			if len(pooled) != 2 {
+				continue
+			}
+			pooled[k%2].Close()
+			lost++
+		}
+		stallReset()
+		for deadline := time.Now().Add(posWait); e.Cluster.HeldStartups() < lost; time.Sleep(time.Millisecond) {
+			if time.Now().After(deadline) {
+				if stalled(posWait) {
+					return evid.Failf("harness-stall", "machine stalled")
+				}
+				return evid.Failf("no-reconnect-attempt", "%d pooled connections were lost but only %d were re-dialled within %v", lost, e.Cluster.HeldStartups(), posWait)
+			}
+		}
+	}
 	for i := range c.Reqs {
 		q := &c.Reqs[i]
 		stallReset()
@@ -348,6 +390,9 @@ func c05Gen(rt *rapid.T) c05Case {
 		nd := rapid.IntRange(1, c.Hosts-1).Draw(rt, "ndown")
 		c.Down = rapid.SliceOfNDistinct(rapid.IntRange(0, c.Hosts-1), nd, nd, func(i int) int { return i }).Draw(rt, "down")
 	}
+	if c.Conns == 2 && rapid.IntRange(0, 3).Draw(rt, "haslose") == 0 {
+		c.Lose = rapid.SliceOfN(rapid.IntRange(-1, 1), c.Hosts, c.Hosts).Draw(rt, "lose")
+	}
 	n := rapid.IntRange(1, 5).Draw(rt, "nreq")
 	for i := 0; i < n; i++ {
 		idem := rapid.Bool().Draw(rt, "idem")
@@ -387,10 +432,17 @@ func c05Classify(c c05Case) (key string, labels []string) {
 		nontrivial = true
 		labels = append(labels, "down-hosts")
 	}
+	for _, k := range c.Lose {
+		if k >= 0 {
+			nontrivial = true
+			labels = append(labels, "host-with-one-of-two-connections-lost")
+			break
+		}
+	}
 	labels = append(labels, fmt.Sprintf("hosts:%d", c.Hosts), fmt.Sprintf("conns:%d", c.Conns))
 	if nontrivial {
 		var sb strings.Builder
-		fmt.Fprintf(&sb, "%d/%d/%v|", c.Hosts, c.Conns, c.Down)
+		fmt.Fprintf(&sb, "%d/%d/%v/%v|", c.Hosts, c.Conns, c.Down, c.Lose)
 		for _, q := range c.Reqs {
 			fmt.Fprintf(&sb, "%s:%v:%v;", q.Kind, q.positivelyIdempotent(c.IdempotentGraph), q.Script)
 		}
@@ -402,8 +454,8 @@ func c05Classify(c c05Case) (key string, labels []string) {
 func TestC05(t *testing.T) {
 	rec := evid.New("C05", "fault_enumeration",
 		"(a) the four decision functions of the default retry policy enumerated exhaustively for retry counts 0..5 and field values 0..5 / all write types / all error kinds against the documented policy; "+
-			"(b) clusters of 1..4 hosts x 1..2 connections (some hosts without a usable connection), requests of every kind and both idempotency classes, per-attempt outcome scripts (every error kind, connection loss) executed through the proxy; the backend's attempt log and the client's reply must equal an independent model of the documented policy; "+
-			"non-trivial = script with >=2 distinct outcome kinds, a success after a retry, or a host without connection; distinct by (cluster shape, request kinds, scripts)")
+			"(b) clusters of 1..4 hosts x 1..2 connections (some hosts without a usable connection, some hosts that lost one of their two connections and are still usable), requests of every kind and both idempotency classes, per-attempt outcome scripts (every error kind, connection loss) executed through the proxy; the backend's attempt log and the client's reply must equal an independent model of the documented policy; "+
+			"non-trivial = script with >=2 distinct outcome kinds, a success after a retry, a host without connection or a host with a partially lost pool; distinct by (cluster shape, request kinds, scripts)")
 	defer finish(t, rec)
 	rec.SetJournalAll(true)
 	rec.Assume("ground-truth idempotency comes from the statement generator (cqlgen), not from package parser",
